@@ -2,12 +2,14 @@ import EdpVerif.Impl.Decode
 import EdpVerif.Impl.Den
 import EdpVerif.Spec.Etf
 import EdpVerif.Lemmas.Codec
+import EdpVerif.Lemmas.Refine
+import EdpVerif.Lemmas.RefineEx
 /-
 C03 — every valid external encoding of a value decodes to exactly that value.
 Oracle: `Spec.parseTop` (Spec/Etf.lean), an independent reader of the format that knows every tag and width.
 -/
 namespace Edp.Props.C03
-open Edp
+open Edp Edp.Term
 
 /-- bytes remaining after one complete term are reported as an error carrying their number — never ignored:
 for every input, every atom cache, every behaviour of the external calls -/
@@ -68,5 +70,120 @@ theorem C03_latin1_atom_chars (b : Bytes) : utf8Decode (latin1ToUtf8 b) = some (
       have n4 : (192 + c.toNat / 64) % 32 * 64 + (128 + c.toNat % 64) % 64 = c.toNat := by omega
       simp
       omega
+
+/-! ### the decoder against the independent reader, for all byte strings -/
+
+/-- the spec reader is given the same zlib function as the decoder -/
+def envOf (x : Ext) : Spec.Env := { inflate := x.inflate }
+
+/-- HYPOTHESIS about the external call `str::parse::<f64>` (FLOAT_EXT, tag 99, only): where Rust's float parser and
+the spec's reading of the 31-byte `%.20e` field are both defined, they give the same double.  (The harness checks
+this per generated field; it is not proved.) -/
+def FloatTextAgrees (x : Ext) : Prop :=
+  ∀ f b b', x.parseFloat f = some b → Spec.parseFloatText f = some b' → b' = b
+
+/-- `v ≈ den t` (`arrivalOf v t`, Lemmas/Refine.lean): `v` is the value of a term `t₀` whose maps hold the entries
+in arrival order, and `t` is `t₀` with every map re-inserted entry by entry into the ordered map (`reins`).
+That is equality up to what `BTreeMap::insert` does to the arriving pairs: reordering, and merging of keys that
+compare equal (the C03 known finding `1` vs `1.0`).
+
+For EVERY byte string, every tag (all alternative forms of every node at once), every depth and fuel: if the
+decoder returns a term and the reader returns a value, they stopped at the same place and the term denotes the
+value in that sense. -/
+theorem C03_agrees (x : Ext) (hpf : FloatTextAgrees x) (fuel fuel' d : Nat) (bs : Bytes) (t : Term) (v : Value)
+    (r r' : Bytes) (h1 : dec x {} fuel d bs = .ok (t, r)) (h2 : Spec.parse (envOf x) fuel' bs = some (v, r')) :
+    r' = r ∧ arrivalOf v t :=
+  (dec_agrees x {} (envOf x) hpf (by intro i a c h; simp [List.lookup] at h) fuel).1 d bs t r fuel' v r' h1 h2
+
+/-- whole messages: every byte string that is a valid encoding of a value `v` (version byte, optional top-level
+compressed section through the shared inflate function) and that the library decodes, decodes to a term denoting `v` -/
+theorem C03_decodes_to_the_value (x : Ext) (hpf : FloatTextAgrees x) (bs : Bytes) (t : Term) (v : Value) (rest : Bytes)
+    (hv : Spec.parseTop (envOf x) bs = some (v, rest)) (hd : decode x bs = .ok t) : arrivalOf v t :=
+  top_agrees x {} (envOf x) rfl hpf (by intro i a c h; simp [List.lookup] at h) bs t v rest hd hv
+
+/-- and exactly `v` when the decoded term contains no map -/
+theorem C03_exact_without_maps (x : Ext) (hpf : FloatTextAgrees x) (bs : Bytes) (t : Term) (v : Value) (rest : Bytes)
+    (hv : Spec.parseTop (envOf x) bs = some (v, rest)) (hd : decode x bs = .ok t) (hm : noMaps t = true) :
+    den t = v := by
+  obtain ⟨t₀, h1, h2⟩ := C03_decodes_to_the_value x hpf bs t v rest hv hd
+  rw [h2] at hm
+  rw [h2, reins_noMaps t₀ hm, h1]
+
+/-- or when every map's entries arrived in strictly increasing key order -/
+theorem C03_exact_sorted_arrival (x : Ext) (hpf : FloatTextAgrees x) (bs : Bytes) (t : Term) (v : Value) (rest : Bytes)
+    (hv : Spec.parseTop (envOf x) bs = some (v, rest)) (hd : decode x bs = .ok t) :
+    ∃ t₀, v = den t₀ ∧ t = reins t₀ ∧ (arrivalSorted t₀ = true → den t = v) := by
+  obtain ⟨t₀, h1, h2⟩ := C03_decodes_to_the_value x hpf bs t v rest hv hd
+  exact ⟨t₀, h1, h2, fun hs => by rw [h2, reins_sorted t₀ hs, h1]⟩
+
+/-- non-vacuity: an old-style pid (PID_EXT, Latin-1 ATOM_EXT node) inside a LARGE_TUPLE with a STRING_EXT -/
+example : ∃ t v, decode Ext.none [131, 105, 0, 0, 0, 2, 103, 100, 0, 1, 97, 0, 0, 0, 1, 0, 0, 0, 2, 3, 107, 0, 1, 65] = .ok t ∧
+    Spec.parseTop (envOf Ext.none) [131, 105, 0, 0, 0, 2, 103, 100, 0, 1, 97, 0, 0, 0, 1, 0, 0, 0, 2, 3, 107, 0, 1, 65] = some (v, []) ∧
+    den t = v := by
+  refine ⟨.tuple [.pid { node := [97], id := 1, serial := 2, creation := 3 }, .list [.int 65]],
+    .tuple [.pid [97] 1 2 3, .cons [.int 65] .nil], ?_, ?_, ?_⟩
+  · simp [decode, decodeWith, dec, decN, ownedOnlyTags, MAX_NESTING_DEPTH, MAX_TUPLE_SIZE, MAX_ATOM_SIZE, rdU, rdN, takeE,
+      takeN, decLatin1Body, latin1ToUtf8, utf8Encode, utf8EncodeCp, Ext.none]
+  · simp [Spec.parseTop, Spec.parse, Spec.parseN, rdN, takeN, Spec.latin1, Value.mkList, envOf]
+  · simp [den, denL, cps, utf8Decode, Value.mkList]
+
+/-! ### existence form: what the decoder accepts is a valid encoding -/
+
+/-- HYPOTHESIS (tag 99 only), stronger than `FloatTextAgrees`: whatever Rust's float parser accepts, the spec's reading
+of the field accepts with the same result -/
+def FloatTextRefines (x : Ext) : Prop := ∀ f b, x.parseFloat f = some b → Spec.parseFloatText f = some b
+
+/-- nothing inflates (input without COMPRESSED sections; the spec reader knows tag 80 only at the top) -/
+def NoInflate (x : Ext) : Prop := ∀ z, x.inflate z = none
+
+/-- every byte string the decoder accepts is a valid encoding — the independent reader accepts it at the same fuel,
+stops at the same place and reads the value the decoded term denotes (equality on the nose) — for ALL byte strings
+whose decoded term is `plainT`: floats finite, no map, no internal fun.  Covered tags: 97 98 99 70 100 118 119 115
+104 105 106 107 108 109 77 110 111 88 103 120 89 102 90 114 101 113 121 82, in every alternative form.  MISSING from
+this form (all three are covered by the agreement form `C03_agrees`):
+* 116 MAP_EXT — the decoder's ordered-map insertion can drop an arriving entry (keys that compare equal), so a guard on
+  the decoded term cannot speak about the dropped key/value;
+* 112 NEW_FUN_EXT — the decoder ignores the Size field, the format fixes it (`C03_accepts_wrong_fun_size`);
+* 80 COMPRESSED — the decoder accepts it nested at any depth, the format only at the top (`NoInflate`).
+NaN/infinite NEW_FLOAT_EXT is accepted by the decoder and is not an Erlang float (`C03_accepts_nan`): hence `finiteF`. -/
+theorem C03_refines_partial (x : Ext) (hpf : FloatTextRefines x) (hz : NoInflate x) (fuel d : Nat) (bs : Bytes)
+    (t : Term) (r : Bytes) (h : dec x {} fuel d bs = .ok (t, r)) (hp : plainT t = true) :
+    Spec.parse (envOf x) fuel bs = some (den t, r) :=
+  (dec_refines x {} (envOf x) hpf hz (by intro i a h; simp [List.lookup] at h) fuel).1 d bs t r h hp
+
+example : dec Ext.none {} 9 0 [104, 2, 115, 1, 233, 107, 0, 1, 65, 255] =
+    .ok (.tuple [.atom [195, 169], .list [.int 65]], [255]) := by
+  simp [dec, decN, ownedOnlyTags, MAX_NESTING_DEPTH, MAX_ATOM_SIZE, rdU, rdN, takeE, takeN, decLatin1Body,
+    latin1ToUtf8, utf8Encode, utf8EncodeCp]
+
+example : Spec.parse (envOf Ext.none) 9 [104, 2, 115, 1, 233, 107, 0, 1, 65, 255] =
+    some (den (.tuple [.atom [195, 169], .list [.int 65]]), [255]) :=
+  C03_refines_partial Ext.none (by intro f b h; simp [Ext.none] at h) (by intro z; rfl) 9 0 _ _ _
+    (by simp [dec, decN, ownedOnlyTags, MAX_NESTING_DEPTH, MAX_ATOM_SIZE, rdU, rdN, takeE, takeN, decLatin1Body,
+      latin1ToUtf8, utf8Encode, utf8EncodeCp]) (by decide)
+
+/-- leniency 1: a NaN in NEW_FLOAT_EXT is decoded without complaint although it is not a valid encoding of any value
+(the encoder side is `C01_valid_not_for_nan`) -/
+theorem C03_accepts_nan (x : Ext) :
+    decode x [131, 70, 0x7F, 0xF8, 0, 0, 0, 0, 0, 0] = .ok (.float 0x7FF8000000000000) ∧
+      Spec.parseTop (envOf x) [131, 70, 0x7F, 0xF8, 0, 0, 0, 0, 0, 0] = none := by
+  constructor
+  · simp only [decode, decodeWith, List.length_cons, List.length_nil]
+    rw [Nat.add_comm _ x.extra]
+    simp [dec, ownedOnlyTags, MAX_NESTING_DEPTH, rdU, rdN]
+  · simp [Spec.parseTop, Spec.parse, rdN]
+
+/-- leniency 2: NEW_FUN_EXT with a wrong Size field (here 0) is decoded; the format requires Size to be the byte count -/
+theorem C03_accepts_wrong_fun_size (x : Ext) :
+    ∃ t, decode x ([131, 112, 0, 0, 0, 0, 0] ++ List.replicate 16 0 ++ [0, 0, 0, 0, 0, 0, 0, 0, 119, 1, 97, 97, 0, 97, 0,
+        88, 119, 1, 97, 0, 0, 0, 0, 0, 0, 0, 0, 0, 0, 0, 0]) = .ok t ∧
+      Spec.parseTop (envOf x) ([131, 112, 0, 0, 0, 0, 0] ++ List.replicate 16 0 ++ [0, 0, 0, 0, 0, 0, 0, 0, 119, 1, 97, 97, 0, 97, 0,
+        88, 119, 1, 97, 0, 0, 0, 0, 0, 0, 0, 0, 0, 0, 0, 0]) = none := by
+  refine ⟨.ifun 0 (List.replicate 16 0) 0 0 [97] 0 0 { node := [97], id := 0, serial := 0, creation := 0 } [], ?_, ?_⟩
+  · simp only [decode, decodeWith, List.replicate, List.cons_append, List.nil_append, List.length_cons, List.length_nil]
+    rw [Nat.add_comm _ x.extra]
+    simp [dec, decN, ownedOnlyTags, MAX_NESTING_DEPTH, MAX_ATOM_SIZE, rdU, rdN, takeE, takeN,
+      decAtomBody, validUtf8, utf8Decode]
+  · simp [Spec.parseTop, Spec.parse, rdN, List.replicate]
 
 end Edp.Props.C03
